@@ -50,11 +50,13 @@ Box1Reasons(r) ==
   \cup Obs(R(SameBox(Box(r.imp, r.imm), a), "init_max"))
   \cup Obs(R(\A k \in 1..Len(r.idp) : SameBox(Box(r.idp[k], r.idm[k]), a), "init_dim"))
   \cup Obs(R(\A k \in 1..Len(r.pdp) : SameBox(Box(r.pdp[k], r.pdm[k]), a), "constructor-pos-dim"))
-  \cup Obs(R(Box(r.scp, r.scm) = a \/ (r.T = "u32" /\ ~Proper(a)), "structure_cast"))
-  \cup Obs(R(NoSpacesB(r.text) = BoxText(a) \/ (r.T = "u32" /\ ~Proper(a)), "output-text"))
+  \* (round 3: for T = "f64" structure_cast is not driven and the text / the centre of a box with odd size are
+  \*  not integers - observed kinds, skipped for that type)
+  \cup Obs(R(Box(r.scp, r.scm) = a \/ (r.T = "u32" /\ ~Proper(a)) \/ r.T = "f64", "structure_cast"))
+  \cup Obs(R(NoSpacesB(r.text) = BoxText(a) \/ (r.T = "u32" /\ ~Proper(a)) \/ r.T = "f64", "output-text"))
   \cup R(\A k \in 1..Len(r.pts) : (r.cp[k] = 1) <=> SContainsPoint(a, r.pts[k]), "contains_point")
   \cup R(ne => ({r.corners[k] : k \in 1..Len(r.corners)} = Corners(BoundingBox(Pts(a))) /\ Len(r.corners) = Pow(2, n)), "corner_points")
-  \cup Obs(R(ne => r.center = Center(a), "center"))
+  \cup Obs(R((ne /\ r.T # "f64") => r.center = Center(a), "center"))
   \cup Obs(R(ne => \A k \in 1..Len(r.pts) : Box(r.epp[k], r.epm[k]) = FExtendPoint(a, r.pts[k]), "extend_bounding_box-point"))
   \cup R(\A k \in 1..Len(r.shv) :
            LET s == Box(r.shp[k], r.shm[k]) IN
